@@ -180,6 +180,43 @@ def run_hist(root, a):
     return recs, None
 
 
+def pending_infos(a):
+    """(child) manual two-phase writing, every step of which completes successfully: a directory that is already committed is
+    extended by a filler with `auto_update_dataset=False` (its infos are held back), a session into a sibling directory is committed,
+    then the held-back infos are committed.  `check()` after every commit."""
+    sp.sedpack()
+    from sedpack.io import Dataset
+    from sedpack.io.dataset_filler import DatasetFiller
+    out = []
+    root = Path(a["root"]); shutil.rmtree(root, ignore_errors=True)
+    ds = sp.mk(root, fmt=a["fmt"], eps=2, hashes=tuple(a["hashes"]))
+    v = 0
+    def fill(sub, n, auto=True):
+        nonlocal v
+        filler = DatasetFiller(ds, relative_path_from_split=Path(sub), auto_update_dataset=auto)
+        with filler as f:
+            for _ in range(n):
+                f.write_example(values=sp.val(v), split="train"); v += 1
+        return filler
+    def chk(step):
+        for who, d in (("same handle", ds), ("reopened", None)):
+            try:
+                (d or Dataset(root)).check(show_progressbar=False); out.append({"step": step, "who": who, "check": "pass"})
+            except Exception as e:  # noqa: BLE001
+                out.append({"step": step, "who": who, "check": f"{type(e).__name__}: {str(e)[:160]}"})
+    try:
+        fill("part_a", 3); chk("part_a committed")
+        held = fill("part_a", 3, auto=False)                  # rewrites train/part_a/shards_list.json; nothing committed yet
+        fill("part_b", 2); chk("sibling part_b committed while part_a's infos are held back")
+        ds.write_config(updated_infos=held.get_updated_infos()); chk("held-back infos committed")
+        got = sorted(sp.read_ids(Dataset(root), "train"))
+        out.append({"step": "read", "ok": got == list(range(v)), "got": got})
+    except Exception as e:  # noqa: BLE001
+        out.append({"step": "error", "error": f"{type(e).__name__}: {str(e)[:200]}"})
+    shutil.rmtree(root, ignore_errors=True)
+    return out
+
+
 def run(ctx):
     rng = ctx.rng("c05")
     cases = []
@@ -208,6 +245,14 @@ def run(ctx):
                 ctx.report({"kind": "missed", "fault": f["fkind"], "file_kind": f["file_kind"]},
                            f"check() passes although {f['file']} was modified ({f['fkind']} {({k: v for k, v in f.items() if k in ('offset', 'length', 'with')})})",
                            {"case": r["case"], "fault": f})
+    # ---- held-back infos (manual two-phase commit): the check passes after every successful step
+    for j, hs in enumerate([["sha256"], ["xxh64", "md5"]][: ctx.pick(1, 2)]):
+        pa = {"root": str(ctx.scratch / f"c05_pending{j}"), "fmt": ["fb", "npz"][(j + ctx.seed) % 2], "hashes": hs}
+        for st in child.call("harness.checks.c05", "pending_infos", pa, timeout=600):
+            if st.get("check", "pass") != "pass" or st.get("error") or st.get("ok") is False:
+                ctx.report({"kind": "false-alarm", "history": "held-back-infos"},
+                           f"check() after a successful writing step ({st['step']}, {st.get('who', '')}): {st.get('check') or st.get('error') or st.get('got')}", {"case": pa, "step": st})
+                break
     # model verdicts for a sample of the faults (the model says fail for every reachable file, pass without fault)
     reqs = [{"m": "check", "fuel": 8, "sessions": [[[[0, 10], [[1, 2], [2, 1]]], [[0, 11], [[3, 2]]]]], "fault": {"kind": "none"}},
             {"m": "check", "fuel": 8, "sessions": [[[[0, 10], [[1, 2], [2, 1]]], [[0, 11], [[3, 2]]]]], "fault": {"kind": "list", "dir": [0, 11], "how": "alter"}},
